@@ -13,11 +13,24 @@ _m(
     "(a quarter of the plane fits get an exactly flat map: a constant is also a plane) "
     "x fit_origin data dtype {float64, float32} x fit_origin mask {default None, all-True as the caller passes}.  "
     "(shift) same geometry x uniform/blob patterns x integer origins in [0,H-1]x[0,W-1] per pattern (or one for all) x "
-    "batch size None|1..a*b x mode {bilinear, nearest, bicubic}.  A case is NON-TRIVIAL when: com - H != W and the "
+    "batch size None|1..a*b x mode {bilinear, nearest, bicubic}; in addition EVERY detector side length 2..128 (thorough: "
+    "2..600) x every mode is enumerated (not sampled): that side on a drawn axis, the other side 2..6, scan 1x2 or 2x2, "
+    "origins over the full range with the first pattern's origin along the long axis in {side-1, 1, side//2}.  (ohist) a "
+    "HISTORY on one CenterOfMassOriginModel over 2-3 data versions of one geometry: [drawn ops] measure [ops] tensor-setter "
+    "[ops] measure [drawn ops], ops drawn from measure(batch) / tensor setter (torch or numpy) / origin_measured setter "
+    "(exact plane or constant) / origin_fitted setter (integer origins) / shifted_tensor setter / device setter / fit / "
+    "shift(batch, mode); every measurement is judged against the oracle of the data the model holds at that moment, every "
+    "fit of exactly planar measured origins against that surface, every integer-origin shift against the roll of the "
+    "current data.  (dhist) a HISTORY on one PtychographyDatasetRaster: _set_intensities_com (stored intensities_4d or an "
+    "explicit array, vectorised or looped, drawn mask, fit) and preprocess() (orientation forced in 3 of 4) interleaved "
+    "with the intensities_4d / com_measured / com_fit setters, always ending with a measurement of the stored data.  "
+    "A case is NON-TRIVIAL when: com - H != W and the "
     "oracle centre of mass is off the geometric centre and differs between row and column by > 0.05 px and some batch "
     "size 1 < bs < a*b does not divide a*b; fit - the row and column surfaces differ and (plane) some slope is non-zero "
     "with the two row-surface slopes different, (constant) the two constants differ; shift - H != W and some origin "
-    "(r,c) has r != c and is not (0,0).  distinct = SHA-1 of the canonical JSON of the whole case.",
+    "(r,c) has r != c and is not (0,0), or the side was enumerated and some origin is not (0,0); ohist - H != W and a "
+    "measurement follows a tensor-setter call that installed a different version after an earlier measurement; dhist - "
+    "H != W, >= 2 measurements and a replacement of the stored intensities between steps.  distinct = SHA-1 of the canonical JSON of the whole case.",
     [
         "oracle: float64 numpy weighted means of the array handed to quantem (marginal sums, then weights); quantem "
         "works in float32, tolerance 1e-3 px (measured clean-tree max 2.2e-6 px; worst-case float32 summation bound "
@@ -25,8 +38,15 @@ _m(
         "fits: 1e-3 px for the float32 PCA plane / mean and for float32 data through fit_origin (measured max 1.1e-5 in random search, 2.1e-5 on the steepest admissible planes), "
         "1e-6 px for float64 data through fit_origin (measured max 2.5e-9); surfaces are restricted to origins inside "
         "the detector (an origin is a detector coordinate), so plane slopes are bounded by (L-1)/(n-1)",
-        "roll: 2e-5 of the maximum intensity (grid_sample at integer positions is exact only up to float32 rounding "
-        "of the normalised grid; measured max 1.2e-6 with bicubic, 2.4e-7 bilinear)",
+        "roll: (2e-5 + 1e-6 * longest detector side) of the maximum intensity: grid_sample at integer positions is "
+        "exact only up to float32 rounding of the normalised grid, ~6e-8 px per pixel of side length (measured max "
+        "1.2e-6 for sides <= 12 and 5.4e-8 * side for sides up to 600; a missed wrap costs >= 4e-2)",
+        "histories: the origin model's `dataset` setter is NOT part of the histories - it replaces the Dataset but not "
+        "the tensor calculate_origin reads, so which of the two is 'the data' is ambiguous (observed on the fixed tree, "
+        "not asserted); data versions keep the shape the model was built with (num_dps is fixed at construction)",
+        "preprocess() failures raised outside _set_intensities_com / fit_origin (e.g. the negative-stride ValueError in "
+        "_set_initial_scan_positions_px when the rotation estimate selects com_transpose=True) are counted in classes "
+        "(dhist_preprocess_failed_outside_com) and end that history without a verdict: not this property",
         "every call gets a fresh copy of the intensities: the looped path multiplies the mask into its argument in "
         "place (not covered by the statement, not asserted)",
         "fit_origin is only exercised with mask=None (its default) and the all-True mask its caller passes; partial "
@@ -40,7 +60,7 @@ _m(
     workers=(1, 16),
     technique="property-based testing (Hypothesis): generated 4-D datasets, masks, batch sizes, surfaces and integer "
     "origins judged against a float64 reference model; differential between the two models and the two code paths",
-    text="Generated-input search: measured origins of both models and both code paths are compared with a float64 "
+    text="Generated-input search (single cases, per-instance histories and an enumeration of detector side lengths): measured origins of both models and both code paths are compared with a float64 "
     "weighted-mean oracle for several batch sizes; exact plane/constant origins must be returned by both fitters; "
     "integer origins must shift to exact circular rolls.  Exploration only: no absence claim.",
     note="CPU only; trusts numpy float64 arithmetic and np.roll for the reference.",
